@@ -1,4 +1,5 @@
 import RsMatterVerif.Lemmas.Dedup
+import RsMatterVerif.Lemmas.DedupGroup
 /-!
 # C04 — a message counter is accepted at most once per secure peer; newer ones always
 
@@ -161,6 +162,37 @@ theorem group_in_window_once (s : RxState) (c : Nat) (hs : s.synced = true) (hne
     unfold inWindow
     simp [tb_ins]
 
+/-- The ghost instrumentation (`stepG`: unbounded positions) does not change behaviour: erasing the
+ghost fields gives exactly `postRecvRoll`. -/
+theorem stepG_erases (g : G) (c : Nat) :
+    (stepG g c).2 = (postRecvRoll g.s c).2 ∧ (stepG g c).1.s = (postRecvRoll g.s c).1 := by
+  unfold stepG
+  cases h : (postRecvRoll g.s c).2 <;> simp only [h, Bool.false_eq_true, ↓reduceIte] <;>
+    (try split) <;> simp
+
+/-- the state of a group sender right after its trust-first message `first` -/
+def gInit (first : Nat) : G := { s := RxState.new first, P := first + U32, acc := [first + U32] }
+
+/-- **Clause 1 for a tracked group sender, whole histories**: as long as the sender's counter has
+advanced by less than a full cycle (2³²) since the trust-first message, no wire value is accepted
+twice (the trust-first message included). A 32-bit counter necessarily re-admits values after a
+full cycle, so the bound is the full strength available. -/
+theorem group_no_double_accept (first : Nat) (cs : List Nat) (hf : first < U32)
+    (hc : ∀ c ∈ cs, c < U32)
+    (hadv : (runG (gInit first) [first] cs).1.P - (first + U32) < U32) :
+    (runG (gInit first) [first] cs).2.Nodup := by
+  have h := runG_inv cs (gInit first) [first] (first + U32) hc (ginv_init first hf)
+    (by
+      have h0 : (first + U32) % U32 = first := by rw [U32_eq] at *; omega
+      simp only [gInit, List.map_cons, List.map_nil, h0])
+  rw [h.2]
+  exact nodup_map_mod _ (first + U32) _ h.1.range hadv h.1.nodup
+
+/-- Non-vacuity: a sender that rolls over (trust-first at 2³²−3, then 2, then the in-window
+2³²−2, then repeats) — accepted wire values are distinct and the hypotheses hold. -/
+example : (runG (gInit 4294967293) [4294967293] [2, 4294967294, 2, 4294967294, 4294967293]).2
+    = [4294967294, 2, 4294967293] := by decide
+
 /-! ## Group store: per-sender isolation, capacity -/
 
 theorem lookupUpdate_length (clk fab node c : Nat) :
@@ -235,5 +267,91 @@ theorem lookupUpdate_spec (clk fab node c : Nat) :
           · rw [hx]; exact hk
           · exact h2 x hx
         · rw [← h.1, h6]; simp
+
+/-! ## Store: one window per sender -/
+
+def keys (es : List GEntry) : List (Nat × Nat) := es.map (fun e => (e.fab, e.node))
+
+theorem lookupUpdate_none (clk fab node c : Nat) (es : List GEntry) :
+    lookupUpdate clk fab node c es = none ↔ (fab, node) ∉ keys es := by
+  induction es with
+  | nil => simp [lookupUpdate, keys]
+  | cons e es ih =>
+    unfold lookupUpdate
+    by_cases hk : e.fab = fab ∧ e.node = node
+    · simp [hk, keys]
+    · simp only [hk, ↓reduceIte]
+      have hne : ¬ ((fab, node) = (e.fab, e.node)) := by
+        intro h; apply hk; simp only [Prod.mk.injEq] at h; exact ⟨h.1.symm, h.2.symm⟩
+      cases hr : lookupUpdate clk fab node c es with
+      | none =>
+        have := ih.1 hr
+        simp only [keys, List.map_cons, List.mem_cons, not_or, true_iff]
+        exact ⟨hne, this⟩
+      | some p =>
+        have : ¬ ((fab, node) ∉ keys es) := fun h => by rw [ih.2 h] at hr; simp at hr
+        simp only [keys, List.map_cons, List.mem_cons, not_or, false_iff, not_and, reduceCtorEq]
+        intro _; exact this
+
+theorem lookupUpdate_keys (clk fab node c : Nat) :
+    ∀ (es es' : List GEntry) (b : Bool), lookupUpdate clk fab node c es = some (es', b) →
+      keys es' = keys es := by
+  intro es es' b h
+  obtain ⟨pre, post, e, h1, _, _, _, _, h6⟩ := lookupUpdate_spec clk fab node c es es' b h
+  rw [h1, h6]; simp [keys]
+
+theorem mem_set_imp {α : Type} (l : List α) (i : Nat) (x y : α) (h : y ∈ l.set i x) :
+    y = x ∨ y ∈ l := by
+  induction l generalizing i with
+  | nil => simp at h
+  | cons a l ih =>
+    cases i with
+    | zero => simp only [List.set_cons_zero, List.mem_cons] at h ⊢; rcases h with h | h <;> simp [h]
+    | succ i =>
+      simp only [List.set_cons_succ, List.mem_cons] at h ⊢
+      rcases h with h | h
+      · right; left; exact h
+      · rcases ih i h with h | h
+        · left; exact h
+        · right; right; exact h
+
+theorem nodup_set {α : Type} (l : List α) (i : Nat) (x : α) (h : l.Nodup) (hx : x ∉ l) :
+    (l.set i x).Nodup := by
+  induction l generalizing i with
+  | nil => simp
+  | cons a l ih =>
+    simp only [List.nodup_cons, List.mem_cons, not_or] at h hx
+    cases i with
+    | zero => simp only [List.set_cons_zero, List.nodup_cons]; exact ⟨hx.2, h.2⟩
+    | succ i =>
+      simp only [List.set_cons_succ, List.nodup_cons]
+      refine ⟨fun hm => ?_, ih i h.2 hx.2⟩
+      rcases mem_set_imp l i x a hm with h1 | h1
+      · exact hx.1 h1.symm
+      · exact h.1 h1
+
+/-- Every sender has at most one window in the store, after any history. -/
+theorem store_keys_nodup (g : GStore) (fab node c : Nat) (h : (keys g.entries).Nodup) :
+    (keys (g.postRecv fab node c).1.entries).Nodup := by
+  simp only [GStore.postRecv]
+  split
+  · rename_i es b hr
+    simp only
+    rw [lookupUpdate_keys _ _ _ _ _ _ _ hr]; exact h
+  · rename_i hr
+    have hnot := (lookupUpdate_none _ _ _ _ _).1 hr
+    split
+    · simp only [keys, List.map_append, List.map_cons, List.map_nil]
+      rw [List.nodup_append]
+      refine ⟨h, by simp, ?_⟩
+      intro a ha b hb
+      simp only [List.mem_singleton] at hb
+      subst hb
+      intro heq; subst heq; exact hnot ha
+    · simp only [keys, List.map_set]
+      exact nodup_set _ _ _ h hnot
+
+/-- Non-vacuity: the empty store has distinct keys. -/
+example : (keys GStore.empty.entries).Nodup := by simp [keys, GStore.empty]
 
 end C04
